@@ -148,5 +148,20 @@ def bounded(check, tier, seed):
     s.done()
 
 
+def derived(check, tier, seed):
+    from bounded.derived import derived_values
+    n = 4000 if tier == "thorough" else 500
+    s = Suite(check, "C16.derived", f"{n} values at the end of chains of <= 4 public operations, wrapped at 1, 2, 3 and 5 columns: the greedy-wrap oracle",
+              bound="chains <= 4 operations", exhaustive=False)
+    for k, v in enumerate(derived_values(seed + 9, n)):
+        for columns in (1, 2, 3, 5):
+            s.case(("d", k, columns), sample=repr(v) if k < 2 else None)
+            d = judge(v, columns)
+            if d:
+                s.fail("C16.linesplit", dict(runs=[[c.s, dict(c.atts)] for c in v.chunks], columns=columns, kind="derived"), d)
+    s.done()
+
+
 def run(check, tier, seed):
     bounded(check, tier, seed)
+    derived(check, tier, seed)
